@@ -349,8 +349,16 @@ func Repl_dnsUnpack(m *dns.Msg, b []byte) error {
 	return nil
 }
 
+var wireLen int
+
 //verif:replace (*github.com/miekg/dns.Msg).Len
-func Repl_dnsLen(m *dns.Msg) int { return 12 }
+func Repl_dnsLen(m *dns.Msg) int { return wireLen }
+
+// Under the engine the wire form is opaque (the parser is replaced by the
+// scripted question above); the native twin packs and parses a real query.
+//
+//verif:replace (*github.com/miekg/dns.Msg).Pack
+func Repl_dnsPack(m *dns.Msg) ([]byte, error) { return make([]byte, 29), nil }
 
 func VH_dns_rules() {
 	qclass = []uint16{dns.ClassINET, dns.ClassCHAOS, 77}[vapi.Choice("class", 3)]
@@ -374,7 +382,15 @@ func VH_dns_rules() {
 	c := cfgs[ci]
 	m := &l4dns.MatchDNS{Allow: c.allow, Deny: c.deny, DefaultDeny: c.defaultDeny, PreferAllow: c.preferAllow}
 	vapi.Assert(m.Provision(caddy.Context{}) == nil, "provision")
-	d := make([]byte, 12)
+	qname := "good.example.com."
+	if qbad {
+		qname = "bad.example.com."
+	}
+	q := &dns.Msg{Question: []dns.Question{{Name: qname, Qtype: qtype, Qclass: qclass}}}
+	q.Id = 4660
+	d, perr := q.Pack()
+	vapi.Assert(perr == nil, "packing the query failed")
+	wireLen = len(d)
 	cx, _ := env.MatchingConn(d, true)
 	layer4.VerifFreeze(cx)
 	ok, err := m.Match(cx)
